@@ -162,6 +162,58 @@ def token_level(B, rep, n, samples):
                         parser_outcomes=len(outs)))
 
 
+WORDS = [("(", "LParen"), (")", "RParen"), ("!", "Not"), (",", "Comma"), ("-a", "And"), ("-and", "And"), ("-o", "Or"), ("-or", "Or"),
+         ("-true", "True"), ("-false", "False"), ("-print", "Print")]
+
+
+def string_level(B, rep, n, samples):
+    """(b) the public parse(&str): n slot-aligned words, each slot a symbolically selected spelling padded with blanks"""
+    width = max(len(w) for w, _ in WORDS) + 1
+    sels = [z3.Int("w%d_%d" % (n, i)) for i in range(n)]
+    assume = [z3.And(s_ >= 0, s_ < len(WORDS)) for s_ in sels]
+    spec = []
+    for s_ in sels:
+        for j in range(width):
+            t = z3.BitVecVal(32, 32)
+            for k, (w, _) in reversed(list(enumerate(WORDS))):
+                t = z3.If(s_ == k, z3.BitVecVal(ord(w[j]) if j < len(w) else 32, 32), t)
+            spec.append(t)
+    # token kinds as seen by the grammar
+    ks = []
+    for s_ in sels:
+        kt = z3.IntVal(0)
+        for k, (_, kind) in reversed(list(enumerate(WORDS))):
+            kt = z3.If(s_ == k, z3.IntVal(G.K[kind]), kt)
+        ks.append(kt)
+    t0 = time.time()
+    r = B.parse(spec, extra_assume=assume)
+    D, T, excl = G.tables(ks)
+    memo = {}
+    ok_g, panic = False, False
+    impl_tree = G.DUMMY
+    for g, v in r.alts:
+        if isinstance(v, Panic):
+            panic = b_or(panic, g)
+        elif is_ok(v):
+            ok_g = b_or(ok_g, g)
+            impl_tree = z3.If(g, tree_to_z3(v.fields[0][1], memo), impl_tree) if g is not True else tree_to_z3(v.fields[0][1], memo)
+    spec_ok, spec_tree = D["LIST"][(0, n)], T["LIST"][(0, n)]
+    for cname, bad in (("accept-iff-sentence", z3.Xor(b2z(ok_g), spec_ok)), ("tree-is-the-grammar-tree", z3.And(b2z(ok_g), spec_ok, impl_tree != spec_tree)),
+                       ("no-panic", b2z(panic))):
+        res, m = B.solve("str%d:%s" % (n, cname), r.assume, bad)
+        if res == z3.sat:
+            text = model_string(m, spec)
+            d, rr = B.native_all([text])[0]
+            want = exp_to_text(m, spec_tree) if z3.is_true(m.eval(spec_ok, model_completion=True)) else "err"
+            got = native_tree_text(d)
+            if got == want:
+                rep.inconclusive.append("counterexample %r (%s) does not reproduce natively" % (text, cname))
+            else:
+                rep.violation("grammar:string:" + cname, "%r: native %s, grammar says %s" % (re.sub(r" +", " ", text).strip(), got, want),
+                              dict(input=text, native_debug=d, expected=want))
+    samples.append(dict(level="strings", n=n, sequences=len(WORDS) ** n, symbolic_execution_s=round(time.time() - t0, 2), outcomes=len(r.alts)))
+
+
 def b2z(g):
     return z3.BoolVal(g) if isinstance(g, bool) else g
 
@@ -173,11 +225,14 @@ def run(ctx, rep, tier):
     samples = []
     for n in range(1, nmax + 1):
         token_level(B, rep, n, samples)
+    for n in range(1, (3 if tier == "quick" else 5) + 1):
+        string_level(B, rep, n, samples)
     cov = B.coverage_common()
     cov.update(explanation="precedence::parser executed symbolically from MIR over token slices of every length 1..%d with "
                "symbolic token kinds; per length, z3 decides acceptance <=> grammar sentence, tree = grammar tree, no prefix "
                "result, no panic, against CYK-style specification tables (whose unambiguity is itself solver-checked)" % nmax,
                bounds=dict(token_sequence_max_len=nmax, token_kinds=G.KINDS),
+               string_level="parse(&str) on 1..%d slot-aligned words with symbolically selected spellings of %d words (incl. -and/-or)" % (3 if tier == "quick" else 5, len(WORDS)),
                outside="longer sequences; primaries with payloads (the atom rule does not inspect them)",
                samples=samples, evaluations=sum(len(G.KINDS) ** s["n"] for s in samples), distinct_nontrivial=len(samples) * 4)
     rep.coverage = cov
